@@ -34,6 +34,9 @@ def cases(tier, seed):
         for (pn, pat), X in itertools.product(pats, xdecor.X_VARIANTS):
             for dip in (False, "rich") if a["n"] % 2 == 0 else (False,):
                 out.append({"arg": a, "mut": pat, "X": X, "dip": dip, "above_root": int(pn == "mod3"), "recurrent": pn == "mod3b"})
+                if X in ("plain", "rich") and pn == "ones" and not dip:
+                    # sites carrying mutations on several different nodes
+                    out.append({"arg": a, "mut": pat, "X": X, "dip": dip, "above_root": 0, "recurrent": False, "merge_sites": True})
     return {
         "cases": out,
         "states": sp.states,
@@ -94,8 +97,38 @@ def diff_tables(ts_in, out, unphased, set_md, viol, sub):
         bad("mutation_count_changed", "")
         return
     ind = ts_in.nodes_individual
+    # a site whose mutations sit on >=2 distinct nodes may come back with its rows permuted (known finding F13:
+    # tables.sort() orders them by the NEW node times); detect that first, site by site, and compare modulo it
+    perm = list(range(a.mutations.num_rows))
+    if not unphased:
+        by_site = {}
+        for m in range(a.mutations.num_rows):
+            by_site.setdefault(a.mutations[m].site, []).append(m)
+        for site, rows in by_site.items():
+            if len({a.mutations[m].node for m in rows}) < 2:
+                continue
+            key_in = [(a.mutations[m].node, a.mutations[m].derived_state, _md_wo_time(a.mutations, a.mutations[m])) for m in rows]
+            rows_out = [m for m in range(b.mutations.num_rows) if b.mutations[m].site == site]
+            key_out = [(b.mutations[m].node, b.mutations[m].derived_state, _md_wo_time(b.mutations, b.mutations[m])) for m in rows_out]
+            norm = lambda k: (k[0], k[1], ("dict", ()) if k[2] == ("raw", b"") else k[2])  # noqa: E731  (empty -> {mn,vr} is allowed)
+            key_in, key_out = [norm(k) for k in key_in], [norm(k) for k in key_out]
+            if rows_out == rows and key_in != key_out and sorted(map(repr, key_in)) == sorted(map(repr, key_out)):
+                # match rows greedily so the remaining comparisons are made modulo the permutation
+                used = set()
+                for m, k in zip(rows, key_in):
+                    for m2, k2 in zip(rows_out, key_out):
+                        if m2 not in used and repr(k2) == repr(k):
+                            perm[m] = m2
+                            used.add(m2)
+                            break
+                # was the reordering forced by tskit's rule "mutations at a site in non-increasing time order"?
+                tnew_in_order = [b.mutations[perm[m]].time for m in rows]
+                # (ties in the new times are re-broken by tskit's sort, which is the same mechanism)
+                forced = any(x <= y for x, y in zip(tnew_in_order[:-1], tnew_in_order[1:]))
+                viol.append({"kind": "mutation_rows_permuted_within_site", "msg": f"site {site}: input nodes {[k[0] for k in key_in]} -> output nodes {[k[0] for k in key_out]}; new times in input order {tnew_in_order}",
+                             "facts": {"site_has_mutations_on_distinct_nodes": True, "input_order_not_strictly_decreasing_under_new_times": forced}, "sub": sub})
     for m in range(a.mutations.num_rows):
-        ra, rb = a.mutations[m], b.mutations[m]
+        ra, rb = a.mutations[m], b.mutations[perm[m]]
         if ra.site != rb.site or ra.derived_state != rb.derived_state:
             bad("mutation_site_or_state_changed", f"mutation {m}")
             break
